@@ -146,6 +146,58 @@ Theorem C10_pairing_output_rejected : forall K (F : Fops K) (C : Codec K) r bs x
   po_dec F C r bs true = Err E_InvalidData.
 Proof. exact (@po_dec_rejects). Qed.
 
+(* Valid::check of PairingOutput accepts EXACTLY the elements with x^r = 1 -- for every field dictionary F, hence for
+   every target-field tower Run.v builds: Fp12 = 2-3-2 (BLS12, BN), Fp4 = 2-2 (MNT4) and Fp6 = 2 over 3 (CP6-782,
+   BW6-761/767, MNT6).  x^r is the plain square-and-multiply `fpow` of Base.Field in that tower (no cyclotomic
+   shortcut: a shortcut is only sound for inputs already known to lie in the cyclotomic subgroup, which is what the
+   check has to establish) *)
+Theorem C10_po_check_iff_order_divides_r : forall K (F : Fops K) r x,
+  po_check F r x = Ok tt <-> feqb F (fpow F x r) (f1 F) = true.
+Proof. exact (@po_check_iff). Qed.
+Theorem C10_po_check_rejects_iff : forall K (F : Fops K) r x,
+  po_check F r x = Err E_InvalidData <-> feqb F (fpow F x r) (f1 F) = false.
+Proof. exact (@po_check_reject_iff). Qed.
+Theorem C10_po_check_nopanic : forall K (F : Fops K) r x, po_check F r x <> Panic.
+Proof. exact (@po_check_nopanic). Qed.
+(* the same for the three towers the interpreter builds, spelled out (p, non-residues arbitrary) *)
+Theorem C10_po_check_iff_fp6_2over3 : forall p nr3 r x,
+  let F := QuadOps (CubicOps (ZpOps p) nr3) (0, 1 mod p, 0) in
+  po_check F r x = Ok tt <-> feqb F (fpow F x r) (f1 F) = true.
+Proof. exact (fun p nr3 r x => po_check_iff (QuadOps (CubicOps (ZpOps p) nr3) (0, 1 mod p, 0)) r x). Qed.
+Theorem C10_po_check_iff_fp12 : forall p nr2 nr6 r x,
+  let F := QuadOps (CubicOps (QuadOps (ZpOps p) nr2) nr6) ((0, 0), (1 mod p, 0), (0, 0)) in
+  po_check F r x = Ok tt <-> feqb F (fpow F x r) (f1 F) = true.
+Proof.
+  exact (fun p nr2 nr6 r x =>
+           po_check_iff (QuadOps (CubicOps (QuadOps (ZpOps p) nr2) nr6) ((0, 0), (1 mod p, 0), (0, 0))) r x).
+Qed.
+Theorem C10_po_check_iff_fp4 : forall p nr2 r x,
+  let F := QuadOps (QuadOps (ZpOps p) nr2) (0, 1 mod p) in
+  po_check F r x = Ok tt <-> feqb F (fpow F x r) (f1 F) = true.
+Proof. exact (fun p nr2 r x => po_check_iff (QuadOps (QuadOps (ZpOps p) nr2) (0, 1 mod p)) r x). Qed.
+(* ... where x^r = 1 is the r-fold product x * x * ... * x = 1 (associative multiplication, feqb decides equality) *)
+Theorem C10_po_check_iff_r_fold_product : forall K (F : Fops K),
+  (forall a b c, fmul F a (fmul F b c) = fmul F (fmul F a b) c) ->
+  (forall a b, feqb F a b = true <-> a = b) ->
+  forall r x, 0 < r ->
+  (po_check F r x = Ok tt <-> nsum1 (fmul F) (Z.to_nat r - 1) x = f1 F).
+Proof. exact (@po_check_iff_product). Qed.
+(* validated deserialization returns x exactly when the bytes decode to x and x^r = 1; without validation it is the
+   plain field decoder *)
+Theorem C10_po_dec_accepts_iff : forall K (F : Fops K) (C : Codec K) r bs x rest,
+  po_dec F C r bs true = Ok (x, rest) <-> c_decp C bs = Ok (x, rest) /\ feqb F (fpow F x r) (f1 F) = true.
+Proof. exact (@po_dec_accepts_iff). Qed.
+Theorem C10_po_dec_unchecked : forall K (F : Fops K) (C : Codec K) r bs, po_dec F C r bs false = c_decp C bs.
+Proof. exact (@po_dec_unchecked). Qed.
+(* totality on the 2-over-3 tower codec (CodecOK lifted through cubic then quadratic, C09) *)
+Theorem C10_fq6_2over3_po_dec_total : forall N p, fp_cfg_ok N p ->
+  forall (F : Fops (Z * Z * Z * (Z * Z * Z))) r bs validate,
+  let C := quad_codec (cubic_codec (fp_codec N p)) in dec_ok (c_sizep C) bs (po_dec F C r bs validate).
+Proof.
+  exact (fun N p H F r bs validate =>
+           po_dec_total F _ _ (quad_codec_ok _ _ _ (cubic_codec_ok _ _ _ (fp_codec_ok N p H))) r bs validate).
+Qed.
+
 (* bls12_381 override, the corrected behaviour (DEFECT-1: the Rust code omits the curve-equation test on
    the uncompressed path): with validation, curve equation and subgroup test both hold ... *)
 Theorem C10_zc_checked_valid : forall K (F : Fops K) sqrt cmp cb p nb d r bs compress (P : @swaff K) rest,
@@ -262,6 +314,22 @@ Example C10_ex_pairing_output :
   c_decp C59 [2] = Ok (2, []) /\ feqb F59 (fpow F59 2 29) (f1 F59) = false /\
   po_dec F59 C59 29 [] true = Err E_Io.
 Proof. exact ex_po. Qed.
+(* toy target field of the CP6-782 / BW6 / MNT6 shape: F_7^6 = F_343[v]/(v^2 - u), F_343 = F_7[u]/(u^3 - 3), r = 43 =
+   7^2 - 7 + 1: g of order 43 is accepted; x of order 19 in the SUBFIELD F_343 (last three coordinates zero), g * x, -1
+   and 0 are rejected when validating *)
+Example C10_ex_pairing_output_2over3 :
+  let g := ((6, 3, 6), (5, 6, 0)) in let x := ((1, 3, 1), (0, 0, 0)) in
+  po_check F7s 43 g = Ok tt /\ fpow F7s g 43 = f1 F7s /\
+  po_check F7s 43 x = Err E_InvalidData /\ fpow F7s x 19 = f1 F7s /\ fpow F7s x 43 = ((1, 6, 6), (0, 0, 0)) /\
+  po_check F7s 43 (fmul F7s g x) = Err E_InvalidData /\
+  po_check F7s 43 (f1 F7s) = Ok tt /\ po_check F7s 43 (fneg F7s (f1 F7s)) = Err E_InvalidData /\
+  po_check F7s 43 (f0 F7s) = Err E_InvalidData /\
+  po_dec F7s C7s 43 [6; 3; 6; 5; 6; 0; 77] true = Ok (g, [77]) /\
+  po_dec F7s C7s 43 [1; 3; 1; 0; 0; 0] true = Err E_InvalidData /\
+  po_dec F7s C7s 43 [1; 3; 1; 0; 0; 0] false = Ok (x, []) /\
+  po_dec F7s C7s 43 [6; 4; 0; 2; 0; 2] true = Err E_InvalidData /\
+  po_dec F7s C7s 43 [6; 3; 6; 5; 6] true = Err E_Io.
+Proof. exact ex_po_2over3. Qed.
 Example C10_ex_zcash :
   zdec13 [128 + 32 + 7; 200] true true = Ok (mkSW 7 8 false, [200]) /\
   zdec13 [7; 8] false true = Ok (mkSW 7 8 false, []) /\
